@@ -105,7 +105,32 @@ LEVEL_TEXT += (" PARTITION part: the inline partition test is modelled in Model/
 _run_rxo_part = run
 
 
+RULE += ("; QoS-CHANGE part: matched-set scenarios of the C16 engine that contain a set_qos step (deadline / user_data flips of a matched "
+         "writer or reader, both directions), judged by the set-based oracle of C16: after the change both sides hold the same verdict")
+
+
+def _run_requalify_part(ctx):
+    """third part: "both sides reach the same verdict" after a QoS CHANGE of a matched endpoint (seeded change C15_d: the reader kept
+    a writer matched that its own new deadline makes incompatible). The scenarios, the model and the oracle are those of the
+    matched-set engine of C16 (vlib/matchset_common.py), restricted to histories that contain a set-qos step."""
+    import os
+    from vlib import matchset_common as M
+    from vlib.dsim_common import dsim_env
+    want = 25 if ctx.tier == "quick" else 300
+    cases, tries = [], 0
+    while len(cases) < want and tries < want * 40:
+        tries += 1
+        c = M.gen_case(ctx.rng, ctx.tier)
+        if any(l.startswith("set-qos") for l in c.lines):
+            cases.append(c)
+    ctx.count("requalify:cases", len(cases))
+    env = dict(os.environ)
+    env.update(dsim_env(16, 60000))
+    ctx.differential(M.ENGINE, cases, nontrivial=M.nontrivial, oracle=M.oracle, env=env)
+
+
 def run(ctx):
     _run_rxo_part(ctx)
     _pc.run_partition_part(ctx)
+    _run_requalify_part(ctx)
 # ---- END partition / topic-name part ---------------------------------------------------------------------------------
